@@ -479,6 +479,14 @@ def check_c17(rep):
             for extra in range(1, 5):
                 frames.append(C.from_console("at5", 0xC0, C.at5_zone_status([{"n": 1, "power": 1, "sensor": 1, "sp": 140, "temp_raw": 733}], rlen=8 + extra)))
                 frames.append(C.from_console("at5", 0xC0, C.at5_ac_status([{"n": 0, "power": 1, "mode": 4, "fan": 3, "sp": 120}], rlen=10 + extra)))
+                # several records per frame, and each such frame twice: a decoder that keeps state between
+                # frames (logging the mismatch once, say) must still honour the stride the second time
+                for _ in range(2):
+                    frames.append(C.from_console("at5", 0xC0, GM.fill_tails(C.at5_zone_status(
+                        [{"n": i, "power": 1 + 2 * (i % 2), "sensor": 1, "sp": 140 + i, "temp_raw": 733 + i, "pct": 10 * i} for i in range(3)],
+                        rlen=8 + extra), 8, rng)))
+                    frames.append(C.from_console("at5", 0xC0, GM.fill_tails(C.at5_ac_status(
+                        [{"n": i, "power": 1, "mode": 4, "fan": 3, "sp": 120 + i} for i in range(2)], rlen=10 + extra), 10, rng)))
         n_unknown += len(frames)
         rng.shuffle(frames)
         for i in range(0, len(frames), 10):
